@@ -1,5 +1,5 @@
 (* C05 -- supported data round-trips exactly, and stably. *)
-From Skv Require Import CodecGuards CodecWitness CodecShareFacts CodecFacts.
+From Skv Require Import CodecGuards CodecWitness CodecShareFacts CodecFacts CodecRootFacts.
 From Gen Require Import Snapshot.
 From Coq Require Import Arith.
 
@@ -27,27 +27,22 @@ Definition C05_roundtrip_full_statement : Prop :=
    emits is loaded by get_tree + construct to exactly v, identity labels included -- the same sharing.
    c05_guard = fragb (the fragment) && objs_wf (labels) && need v <= default_fuel (nesting depth below the fuel).
    Still missing from the full statement: bytes / arrays / sparse / dtype / RNG / masked / partial / operator helpers
-   (member lookup by name), object arrays, and the two root fields protocol/_skops_version that _save appends
-   (here load_state takes the protocol as an argument).  These are covered by the per-case evaluation `c05_case_same`
+   (member lookup by name) and object arrays.  The statement is about the entry points: dumps_model (incl. the root
+   fields protocol/_skops_version of _save) does not raise and loads_model returns v.  The missing kinds are covered by the per-case evaluation `c05_case_same`
    and by the correspondence with the implementation (harness/props/c05.py). *)
 Theorem C05_roundtrip_partial :
-  forall (D : denv) (F : cfacts) (C : cenv) (files : list (hkey * json)) (base : Z) (v : pval) (j : json) (st : dst),
-    c_namedtuples C = f_namedtuples F /\ c_missing C = f_missing F ->
-    facts_sane F = true -> reg_ok (e_reg (c_env C)) (e_cur (c_env C)) = true ->
-    c05_guard F D base v = true ->
-    get_state D v (init_dst base) = Ok (j, st) ->
-    d_late st = None /\ load_state C files (JInt (e_cur (c_env C))) j = Ok v.
-Proof. exact share_roundtrip. Qed.
+  forall (F : cfacts) (D : denv) (base : Z) (v : pval),
+    dn_cur D = Snapshot.current -> facts_sane F = true -> c05_guard F D base v = true ->
+    roundtrip Snapshot.registry Snapshot.current F D base v = Ok v.
+Proof. exact (fun F D base v H1 H2 H3 => root_roundtrip_total _ _ F D base v H1 C05_loaders_registered H2 H3). Qed.
 Print Assumptions C05_roundtrip_partial.
 
-(* k dump/load cycles (induction on k) *)
+(* k cycles of dumps / loads (induction on k) *)
 Theorem C05_stable_partial :
-  forall (D : denv) (F : cfacts) (C : cenv) (files : list (hkey * json)) (base : Z) (v : pval),
-    c_namedtuples C = f_namedtuples F /\ c_missing C = f_missing F ->
-    facts_sane F = true -> reg_ok (e_reg (c_env C)) (e_cur (c_env C)) = true ->
-    c05_guard F D base v = true ->
-    forall j st, get_state D v (init_dst base) = Ok (j, st) -> forall k, cycles D C files base k v = Ok v.
-Proof. exact share_stable. Qed.
+  forall (F : cfacts) (D : denv) (base : Z) (v : pval),
+    dn_cur D = Snapshot.current -> facts_sane F = true -> c05_guard F D base v = true ->
+    forall k, roundtrips Snapshot.registry Snapshot.current F D base k v = Ok v.
+Proof. exact (fun F D base v H1 H2 H3 => root_stable _ _ F D base v H1 C05_loaders_registered H2 H3). Qed.
 Print Assumptions C05_stable_partial.
 
 (* the fragment is contained in the property's grammar *)
